@@ -45,3 +45,6 @@ pub use parser::{
   parse_boxed_expression, parse_context, parse_expression, parse_longest_name, parse_name, parse_textual_expression, parse_textual_expressions,
   parse_unary_tests,
 };
+
+#[cfg(dmntk_verif)]
+pub use lexer::verif_tokens;
